@@ -282,7 +282,7 @@ func (in *Interp) resolve(l *LazyV, tag int) {
 	case TStr:
 		iv = IfaceV{T: tt, V: in.symString(nm+"_s", spec)}
 	case TJNum:
-		iv = IfaceV{T: tt, V: &StrV{Num: in.symNumText(nm+"_n", spec)}}
+		iv = IfaceV{T: tt, V: in.symNumStr(nm+"_n", spec)}
 	case TArr:
 		maxLen := spec.A
 		if l.Depth <= 0 {
@@ -365,7 +365,9 @@ func (in *Interp) resolve(l *LazyV, tag int) {
 		c := cls[in.choose("deccls", len(cls))]
 		d := &DecV{Cls: c}
 		if c == DFinite {
-			nt := in.symNumText(nm+"_d", spec)
+			sp := *spec
+			sp.NumForms &^= 1 << NFBad
+			nt := in.symNumText(nm+"_d", &sp)
 			d.Val = numTextValue(nt)
 		}
 		iv = IfaceV{T: tt, V: d}
@@ -418,6 +420,19 @@ func (in *Interp) symNumText(name string, spec *DocSpec) *NumText {
 		}
 	}
 	return nt
+}
+
+// badNumberTexts are json.Number contents that are not JSON numbers.
+var badNumberTexts = []string{"", "abc", "NaN", "Inf", "-Infinity", "1_0", "0x10", "1e999999", "--1", " 1", "1.", ".5", "+1"}
+
+// symNumStr returns a json.Number-like string: an abstract number text, or a
+// concrete malformed text when the spec allows invalid numbers.
+func (in *Interp) symNumStr(name string, spec *DocSpec) *StrV {
+	nt := in.symNumText(name, spec)
+	if nt.Form == NFBad {
+		return ConcStr(badNumberTexts[in.choose("badnum", len(badNumberTexts))])
+	}
+	return &StrV{Num: nt}
 }
 
 func numTextValue(nt *NumText) *Term {
